@@ -66,7 +66,7 @@ RULE = ("every string over the 14-character alphabet up to the length bound (+ f
         "separator, control, whitespace, markup, astral), i.e. is not a plain letter string; every case is "
         "a distinct (levels, prior, strings) tuple by construction.")
 ASSUMPTIONS = [
-    "alphabet-bounded: strings over 14 representative characters up to length 3|4 plus 18 fixed longer strings",
+    "alphabet-bounded: strings over 14 representative characters up to length 3|4 plus 25 fixed longer strings",
     "prior body states: six hand-written XML bodies; histories: one prior assignment (pairs), not longer",
     "reference model mc/oracles/text_ref.py written from the statement; horizontal tab accepted kept or escaped",
     "escape look-alike literals (_x000A_) are only judged for 'no exception' and round-trip stability",
@@ -83,6 +83,11 @@ EXTRA = [
     "\x00\x07\x1f\r\t", "<a:br/>&amp;<a:t>", "]]>&#10;&lt;", "\n\v\n\v\n", "\r\n\r\n\r", "\t\t \t\t",
     "\x01\x02\x08\x0c\x0e\x1b", "\u00e9\u4e2d\u05d0", "\ud7ff\ue000\ufffd", "\x7f\x85\u2028 ", "a" * 64,
     " \U0001F600\U00010000\U0010FFFF ",
+    # long runs: more breaks / paragraphs in one string than any small constant a splitter might cap at
+    "\v".join("s%d" % i for i in range(12)), "\n".join("p%d" % i for i in range(12)), "x" + "\v" * 40 + "y",
+    "\n\v" * 10 + "end", "~\x7f\x80\x9f\xa0",
+    # _xHHHH_ look-alikes for code points the statement gives no escape to (not C0 controls): plain text, judged
+    "col_x0041_total", "_x00E9__x0041_",
 ]
 LOOKALIKE = ["_x000A_", "_x000B_a", "a_x0007_", "_x005F_", "_x000a_\n_x0020_"]
 
